@@ -359,9 +359,219 @@ func ruleUnparsedScan(c *Ctx) {
 			}
 		}
 	})
-	_ = unp
 	if why == "" {
 		why = "every inline child is examined"
 	}
 	c.Check(okAll, "UNPARSED-SCAN", "hasUnparsed", fn.Pos(), why)
+	// a child of kind Unparsed settles the answer: with the child's kind fixed to Unparsed, every way through the loop
+	// body (conditions on anything else taken both ways) ends in `return true`
+	isElem := func(v ssa.Value) bool {
+		ld, ok := v.(*ssa.UnOp)
+		if !ok || ld.Op != token.MUL {
+			return false
+		}
+		ia, ok := ld.X.(*ssa.IndexAddr)
+		if !ok {
+			return false
+		}
+		_, isList := isLoadOfFieldAny(ia.X, "inlineChildren")
+		return isList
+	}
+	var kindVals []ssa.Value
+	eachInstr(fn, func(in ssa.Instruction) {
+		switch x := in.(type) {
+		case *ssa.Call:
+			if g := x.Call.StaticCallee(); g != nil && g.Name() == "Kind" && len(x.Call.Args) == 1 && isElem(x.Call.Args[0]) {
+				kindVals = append(kindVals, x)
+			}
+		case *ssa.UnOp:
+			if x.Op == token.MUL {
+				if fa, ok := isFieldAddr(x.X, "Inline", "kind"); ok && isElem(fa.X) {
+					kindVals = append(kindVals, x)
+				}
+			}
+		}
+	})
+	if len(kindVals) == 0 {
+		return
+	}
+	isKind := map[ssa.Value]bool{}
+	for _, k := range kindVals {
+		isKind[k] = true
+	}
+	st := &evalState{e: newBSET(p), fn: fn, from: make([]int, len(fn.Blocks)), noLoopPhi: true}
+	st.symVal = func(v ssa.Value) (int64, bool) {
+		if isKind[v] {
+			return unp, true
+		}
+		return 0, false
+	}
+	for i := range st.from {
+		st.from[i] = -2
+	}
+	start := kindVals[0].(ssa.Instruction).Block()
+	escapes := ""
+	visited := map[*ssa.BasicBlock]bool{}
+	var dfs func(b *ssa.BasicBlock)
+	dfs = func(b *ssa.BasicBlock) {
+		if escapes != "" {
+			return
+		}
+		if visited[b] {
+			if b == start || b.Dominates(start) {
+				escapes = "the loop goes on to the next child"
+			}
+			return
+		}
+		visited[b] = true
+		switch t := b.Instrs[len(b.Instrs)-1].(type) {
+		case *ssa.Return:
+			if len(t.Results) == 1 {
+				if k, ok := t.Results[0].(*ssa.Const); ok && k.Value != nil && k.Value.String() == "true" {
+					return
+				}
+			}
+			escapes = "a path returns something other than true"
+		case *ssa.If:
+			succs := b.Succs
+			st.why = ""
+			if v, ok := st.eval(t.Cond); ok {
+				if v != 0 {
+					succs = b.Succs[:1]
+				} else {
+					succs = b.Succs[1:]
+				}
+			}
+			for _, s := range succs {
+				if s.Dominates(start) && s != start {
+					escapes = "the loop goes on to the next child"
+					return
+				}
+				st.from[s.Index] = b.Index
+				dfs(s)
+			}
+		case *ssa.Jump:
+			s := b.Succs[0]
+			if s.Dominates(start) && s != start {
+				escapes = "the loop goes on to the next child"
+				return
+			}
+			st.from[s.Index] = b.Index
+			dfs(s)
+		}
+	}
+	dfs(start)
+	c.Check(escapes == "", "UNPARSED-SCAN", "hasUnparsed:kind-decides", kindVals[0].Pos(), "a child of kind Unparsed does not always make the answer true: "+escapes)
+}
+
+// LOOSE-AGREE: the items of a list carry the list's own tightness.
+func ruleLooseAgree(c *Ctx) {
+	c.Rule("LOOSE-AGREE", "Every store into the tightness flag (listLoose) of a block taken from X.blockChildren — an item of the list X — stores X's own flag: the loaded X.listLoose, or the constant c on a path dominated by the branch X.listLoose == c; it runs for every item (a unit-stride loop over the whole X.blockChildren, the store on every iteration). A per-item condition (only items with several children, only non-empty items) makes IsTightList disagree between a list and some of its items.")
+	p := c.P
+	n := 0
+	for _, fn := range p.Funcs {
+		if fn.Blocks == nil {
+			continue
+		}
+		var loops []natLoop
+		eachInstr(fn, func(in ssa.Instruction) {
+			st, ok := in.(*ssa.Store)
+			if !ok {
+				return
+			}
+			fa, ok := isFieldAddr(st.Addr, "Block", "listLoose")
+			if !ok {
+				return
+			}
+			ld, ok := fa.X.(*ssa.UnOp)
+			if !ok || ld.Op != token.MUL {
+				return
+			}
+			ia, ok := ld.X.(*ssa.IndexAddr)
+			if !ok {
+				return
+			}
+			sl, ok := ia.X.(*ssa.UnOp)
+			if !ok || sl.Op != token.MUL {
+				return
+			}
+			cf, ok := isFieldAddr(sl.X, "Block", "blockChildren")
+			if !ok {
+				return
+			}
+			list := cf.X
+			n++
+			label := shortFuncName(fn)
+			if strings.HasPrefix(label, "init$") {
+				label = "rule-closure"
+			}
+			key := fmt.Sprintf("%s:item-store#%d", label, n)
+			// value
+			okVal, why := false, "the value stored is neither the list's flag nor a constant under a test of the list's flag"
+			if vl, ok := st.Val.(*ssa.UnOp); ok && vl.Op == token.MUL {
+				if lf, ok := isFieldAddr(vl.X, "Block", "listLoose"); ok && (lf.X == list || sameTerm(lf.X, list)) {
+					okVal = true
+				}
+			}
+			if k, ok := st.Val.(*ssa.Const); ok && k.Value != nil {
+				want := k.Value.String() == "true"
+				for _, b := range fn.Blocks {
+					iff := blockIf(b)
+					if iff == nil {
+						continue
+					}
+					cond := stripNot(iff.Cond)
+					cl, ok := cond.(*ssa.UnOp)
+					if !ok || cl.Op != token.MUL {
+						continue
+					}
+					lf, ok := isFieldAddr(cl.X, "Block", "listLoose")
+					if !ok || !(lf.X == list || sameTerm(lf.X, list)) {
+						continue
+					}
+					edge := 0
+					if !want {
+						edge = 1
+					}
+					if isNegated(iff.Cond) {
+						edge = 1 - edge
+					}
+					if edgeDominates(b, edge, st.Block()) {
+						okVal = true
+					}
+				}
+			}
+			c.Check(okVal, "LOOSE-AGREE", key, st.Pos(), why)
+			// coverage
+			if loops == nil {
+				loops = naturalLoops(fn)
+			}
+			var loop *natLoop
+			for i := range loops {
+				if loops[i].body[st.Block()] && (loop == nil || len(loops[i].body) < len(loop.body)) {
+					loop = &loops[i]
+				}
+			}
+			every := false
+			whyC := "the store is not inside a loop over the list's children"
+			if loop != nil {
+				ok, w := unitStrideOver(ia.Index, sl)
+				whyC = "the loop does not visit every child: " + w
+				if ok {
+					every = true
+					for _, l := range loop.latches {
+						if !st.Block().Dominates(l) {
+							every = false
+							whyC = "the store is skipped on some iterations"
+						}
+					}
+				}
+			}
+			c.Check(every, "LOOSE-AGREE", key+":every-item", st.Pos(), whyC)
+		})
+	}
+	c.Analysed["item_tightness_stores"] = n
+	if n == 0 {
+		c.Assume("LOOSE-AGREE: no store into the tightness flag of a list's child was found; the rule recognises nothing and decides nothing")
+	}
 }
